@@ -44,7 +44,6 @@ ASSUMPTIONS = [
     "and the other members keep their own cost; joint covariance positive definite with cond <= 1e6 (as C10 / C11), other points discarded and counted",
     "multi-fits: shared sources are absolute and data-referenced (relative ones and refusals are C11's workload); members that can carry x sources use polynomials of degree <= 2 "
     "(central differences exact, the common step of the joint slope is immaterial); a shared source is only toggled through the multi-fit; "
-    "MultiFit.add_error(fits=<int>) is only used for xy members (it hands the axis keyword on to the member)",
 ]
 ANCHORS = [
     ("kafe2.fit._base.cost", "CostFunction.__call__"),
@@ -90,7 +89,7 @@ def floors(tier):
                 "multi.set_parameter_values", "multi.add_error.shared", "multi.add_matrix_error.shared", "multi.disable_error", "multi.enable_error", "member.disable_error"],
         "reach": ["%s:%s" % a for a in ANCHORS],
         "sets": {"cost_alias_by_type": len(XY_ALIASES) + 2 * len(BASE_ALIASES) + 3, "source_features": 20, "multi_member_type_cost": 12},
-        "strata": ["model-referenced-first", "model-referenced-only", "x-source", "disabled-source", "matrix-constraint", "other-unit", "other-unit-after-fit",
+        "strata": ["multi:fits=int-on-a-member-without-x-axis", "model-referenced-first", "model-referenced-only", "x-source", "disabled-source", "matrix-constraint", "other-unit", "other-unit-after-fit",
                    "multi", "multi:shared", "multi:shared-y-simple", "multi:shared-y-matrix", "multi:shared-x", "multi:two-shared", "multi:shared-source-toggled-after-an-evaluation",
                    "multi:shared-source-disabled-before-first-evaluation-enabled-after-one", "multi:shared-source-declared-after-an-evaluation",
                    "multi:member-source-declared-after-a-shared-source", "multi:member-source-toggled-through-multi-fit", "multi:member-source-toggled-through-member"],
@@ -932,14 +931,19 @@ def run_multi(ctx, case):
             elif k == "member_source":
                 j, op = st["member"], st["add"]
                 mb = members[j]
-                through_multi = st["via"] == "multi" and mb.spec["type"] == "xy"  # MultiFit.add_error(fits=<int>) hands 'axis' on: xy members only
+                through_multi = st["via"] == "multi"
                 if through_multi:
                     ctx.op("multi.%s.fits=int" % op[0])
                     a = op[1]
+                    # members without an x axis: 'y' and None both mean "the" uncertainty (documented for IndexedFit)
+                    ax = a["axis"] if mb.spec["type"] == "xy" else [None, "y"][len(mb.ref.sources) % 2]
+                    if mb.spec["type"] != "xy":
+                        ctx.stratum("multi:fits=int-on-a-member-without-x-axis")
                     if op[0] == "add_error":
-                        multi.add_error(err_val=_arr(a["err"]), fits=j, axis=a["axis"], name=a["name"], correlation=a.get("corr", 0.0), relative=a.get("relative", False), reference=a.get("reference", "data"))
+                        rid = multi.add_error(err_val=_arr(a["err"]), fits=j, axis=ax, name=a["name"], correlation=a.get("corr", 0.0), relative=a.get("relative", False), reference=a.get("reference", "data"))
                     else:
-                        multi.add_matrix_error(err_matrix=np.array(a["matrix"], dtype=float), matrix_type=a["matrix_type"], fits=j, axis=a["axis"], name=a["name"], err_val=_arr(a.get("err_val")), relative=a.get("relative", False), reference=a.get("reference", "data"))
+                        rid = multi.add_matrix_error(err_matrix=np.array(a["matrix"], dtype=float), matrix_type=a["matrix_type"], fits=j, axis=ax, name=a["name"], err_val=_arr(a.get("err_val")), relative=a.get("relative", False), reference=a.get("reference", "data"))
+                    ctx.check("multi.add_error(fits=int).returns-the-error-id", rid == a["name"], lambda: {"returned": rid, "name": a["name"], "member_type": mb.spec["type"]})
                     from vlib.fitcase import norm_op
 
                     dsl.apply_ref(mb.ref, mb.spec, norm_op(mb.spec, op))
